@@ -41,6 +41,13 @@ fn parse_display(d: &str) -> Option<(usize, usize, String, Option<usize>, bool)>
     Some((l, c, text, marker, bar2 == bar3 && tabs_ok))
 }
 
+/// The same error rendered through the other routes - with a path in the header, as a parsing error whose rule
+/// names go through `renamed_rules` - must show the same line number, column, text and marker (the path and the
+/// message themselves are not part of the property and are not judged).
+fn variants_agree(plain: &Option<(usize, usize, String, Option<usize>, bool)>, with_path: &str, parsing: &str) -> bool {
+    parse_display(with_path) == *plain && parse_display(parsing) == *plain
+}
+
 fn pair_lc_builder(s: &str, off: usize) -> Result<(usize, usize), String> {
     guarded(|| {
         // the pair alone; followed by a sibling that lies BEFORE it in the input; as a child reaching past its parent:
@@ -80,21 +87,25 @@ fn observe_pos(s: &str, off: usize, nchars: usize) -> Value {
         let elc = match e.line_col { LineColLocation::Pos(x) => x, LineColLocation::Span(x, _) => x };
         let from = match LineColLocation::from(p) { LineColLocation::Pos(x) => x, LineColLocation::Span(x, _) => x };
         let disp = e.to_string();
-        (lc, text, elc, from, e.line().to_string(), disp)
+        let dpath = e.clone().with_path("dir/f.rs").to_string();
+        let e2: Error<u8> = Error::new_from_pos(ErrorVariant::ParsingError { positives: vec![1, 2, 3], negatives: vec![9] }, p);
+        let dpars = e2.renamed_rules(|r| format!("r{}", r)).to_string();
+        (lc, text, elc, from, e.line().to_string(), disp, dpath, dpars)
     });
     match r {
         Err(m) => json!({"off": off, "panic": m}),
-        Ok((lc, text, elc, from, eline, disp)) => {
+        Ok((lc, text, elc, from, eline, disp, dpath, dpars)) => {
             let pb = pair_lc_builder(s, off);
             let pp = pair_lc_parse(s, nchars);
             let pd = parse_display(&disp);
+            let routes = variants_agree(&pd, &dpath, &dpars);
             json!({"off": off, "panic": "", "line": lc.0, "col": lc.1, "text": cps(&text),
                    "err_line": elc.0, "err_col": elc.1, "from_line": from.0, "from_col": from.1,
                    "pair_builder": match &pb { Ok(x) => json!([x.0, x.1]), Err(_) => json!([0, 0]) },
                    "pair_parse": match &pp { Ok(x) => json!([x.0, x.1]), Err(_) => json!([0, 0]) },
                    "pair_panic": format!("{}{}", pb.as_ref().err().cloned().unwrap_or_default(), pp.as_ref().err().cloned().unwrap_or_default()),
                    "err_text": cps(&eline),
-                   "disp_ok": pd.is_some(),
+                   "disp_ok": pd.is_some() && routes,
                    "disp_line": pd.as_ref().map(|x| x.0).unwrap_or(0), "disp_col": pd.as_ref().map(|x| x.1).unwrap_or(0),
                    "disp_text": pd.as_ref().map(|x| cps(&x.2)).unwrap_or_default(),
                    "disp_marker": pd.as_ref().and_then(|x| x.3).map(|m| m + 1).unwrap_or(0),
@@ -151,16 +162,20 @@ fn observe_span(s: &str, a: usize, b: usize) -> Value {
         let e: Error<u8> = Error::new_from_span(ErrorVariant::CustomError { message: "m".into() }, sp);
         let (slc, elc) = match e.line_col { LineColLocation::Span(x, y) => (x, y), LineColLocation::Pos(x) => (x, x) };
         let disp = e.to_string();
-        (ls, strs_ok, slc, elc, disp, e.line().to_string())
+        let dpath = e.clone().with_path("dir/f.rs").to_string();
+        let e2: Error<u8> = Error::new_from_span(ErrorVariant::ParsingError { positives: vec![1, 2, 3], negatives: vec![9] }, sp);
+        let dpars = e2.renamed_rules(|r| format!("r{}", r)).to_string();
+        (ls, strs_ok, slc, elc, disp, e.line().to_string(), dpath, dpars)
     });
     match r {
         Err(m) => json!({"a": a, "b": b, "panic": m}),
-        Ok((ls, strs_ok, slc, elc, disp, eline)) => {
+        Ok((ls, strs_ok, slc, elc, disp, eline, dpath, dpars)) => {
             let pd = parse_display(&disp);
+            let routes = variants_agree(&pd, &dpath, &dpars);
             json!({"a": a, "b": b, "panic": "", "alg": span_algebra(s, a, b), "lines": ls.iter().map(|(x, y)| json!([x, y])).collect::<Vec<_>>(),
                    "strs_ok": strs_ok, "sline": slc.0, "scol": slc.1, "eline": elc.0, "ecol": elc.1,
                    "err_text": cps(&eline),
-                   "disp_ok": pd.is_some(), "disp_line": pd.as_ref().map(|x| x.0).unwrap_or(0),
+                   "disp_ok": pd.is_some() && routes, "disp_line": pd.as_ref().map(|x| x.0).unwrap_or(0),
                    "disp_col": pd.as_ref().map(|x| x.1).unwrap_or(0),
                    "disp_text": pd.as_ref().map(|x| cps(&x.2)).unwrap_or_default(),
                    "disp_marker": pd.as_ref().and_then(|x| x.3).map(|m| m + 1).unwrap_or(0),
